@@ -210,6 +210,14 @@ def check(ctx):
             body = pre + str(rng.randrange(1, 10)) + "".join(rng.choice("0123456789") for _ in range(nd - 1))
             for text in ("#%s#" % body, "x = 1; #%s# + 1" % body, "#%s.5#" % body):
                 run(text, "instant-number-body")
+    # unknown function / variable / unit names of every length (the diagnostic for an unknown name may look for similar names:
+    # whatever it does, it returns promptly), small literals only
+    for ln in (4, 12, 25, 60, 90, 120, 160, 400):
+        nm = "sample_standard_deviation_of_the_" + "".join(rng.choice("abcdefghijklmnopqrstuvwxyz_") for _ in range(ln))
+        nm = nm[-ln:] if ln < 33 else nm[:ln]
+        nm = "f" + nm.lstrip("_0123456789")
+        for text in ("%s(1)" % nm, "%s" % nm, "1 %s" % nm, "1 m to %s" % nm, "%s(k: 1)" % nm):
+            run(text, "long-unknown-name")
     for text in ["", " ", ";", ";;", "1;", ";1", "%", "(", ")", "1 +", "x =", "=", "1e", "1e-", "0x", "0b2", "#", "\"", "{", "[1,", "f(", "f(1,", "1..", "..1",
                  "1 to", "to m", "1 m to", "1 m |", "1 m^", "1 m^x", "1 m^1.5", "instant", "1.5e400", "2^20000", "10^5000/3", "1/(10^400) + 0.5",
                  "sample(Geometric(1))", "max(5)", "max()", "range(1,2,0)", "1" + "0" * 400 + ".0", "1" + "0" * 400 + ".5 + 1", "1" + "0" * 308 + ".0", "9" * 309 + ".9", "1" + "0" * 400 + ".5e-200", "0." + "0" * 400 + "1",
